@@ -276,7 +276,11 @@ func ruleCutCheck(c *Ctx) {
 						if !ok || !isCircularCall(cc) || !cl.neg || len(cc.Args) < 3 {
 							continue
 						}
-						if id, ok := unparen(cc.Args[0]).(*ast.Ident); ok {
+						a0 := unparen(cc.Args[0])
+						if u, isAddr := a0.(*ast.UnaryExpr); isAddr && u.Op == token.AND {
+							a0 = unparen(u.X) // the tested reference held by value: &k
+						}
+						if id, ok := a0.(*ast.Ident); ok {
 							k = c.objOf(id)
 						}
 						last, _ := unparen(cc.Args[len(cc.Args)-1]).(*ast.Ident)
@@ -322,6 +326,10 @@ func ruleCutCheck(c *Ctx) {
 							if !ok || !c.isSpecFunc(cc, "normalizeRef") {
 								norm = false
 							}
+						}
+						// ... or the inlined form of the normaliser (a reference parsed from normalizeURI's result)
+						if !norm {
+							norm = c.isNormalisedRef(fd, &ast.Ident{Name: k.Name(), NamePos: k.Pos()}, nil, 0) || c.normalisedObj(fd, k)
 						}
 						c.ob(rule, key+":canonical-key", call.Pos(), norm, "the reference tested and pushed must be the normalised (canonical absolute) form")
 					}
@@ -767,6 +775,9 @@ func (c *Ctx) panicSites(fd *ast.FuncDecl) []panicSite {
 						}
 					}
 				}
+				if id, ok := unparen(x.Index).(*ast.Ident); ok && c.sortIndexForwarded(fd, x.X, c.objOf(id)) {
+					return true
+				}
 				if !c.indexGuarded(fd, x) && !c.lastOfNonEmpty(fd, x.X, x.Index) && !c.simIndexSafe(fd, x) {
 					out = append(out, panicSite{fn, "index", exprString(x), x.Pos()})
 				}
@@ -790,7 +801,7 @@ func (c *Ctx) panicSites(fd *ast.FuncDecl) []panicSite {
 				if _, isMap := c.typeOf(ix.X).Underlying().(*types.Map); !isMap {
 					continue
 				}
-				if !c.mapStoreSafe(fd, x, ix) {
+				if !c.mapStoreSafe(fd, x, ix) && !c.simMapStoreSafe(fd, ix) {
 					out = append(out, panicSite{fn, "nil-map-store", exprString(ix.X), x.Pos()})
 				}
 			}
@@ -814,6 +825,18 @@ func (c *Ctx) indexGuarded(fd *ast.FuncDecl, ix *ast.IndexExpr) bool {
 	}
 	if arr, ok := c.typeOf(ix.X).Underlying().(*types.Array); ok && int64(k) < arr.Len() {
 		return true
+	}
+	// a local slice made once with a constant length above the index, and never re-sliced or reassigned
+	if id, ok := unparen(ix.X).(*ast.Ident); ok {
+		if ds := c.localDefs(fd)[c.objOf(id)]; len(ds) == 1 && ds[0] != nil {
+			if mk, ok := unparen(ds[0]).(*ast.CallExpr); ok && c.isBuiltin(mk, "make") && len(mk.Args) >= 2 {
+				if tv, ok := c.Info.Types[mk.Args[1]]; ok && tv.Value != nil {
+					if n, isInt := constInt(tv.Value.String()); isInt && k < n {
+						return true
+					}
+				}
+			}
+		}
 	}
 	stripConv := func(e ast.Expr) string {
 		e = unparen(e)
@@ -983,7 +1006,76 @@ func (c *Ctx) sliceGuarded(fd *ast.FuncDecl, se *ast.SliceExpr) bool {
 		})
 		return found
 	}
-	return okBound(se.Low) && okBound(se.High)
+	if okBound(se.Low) && okBound(se.High) {
+		return true
+	}
+	// constant bounds under a length test in force: s[:k] / s[k:] where len(s) >= k is known
+	need := int64(-1)
+	for _, b := range []ast.Expr{se.Low, se.High, se.Max} {
+		if b == nil {
+			continue
+		}
+		tv, ok := c.Info.Types[b]
+		if !ok || tv.Value == nil {
+			return false
+		}
+		k, isInt := constInt(tv.Value.String())
+		if !isInt || k < 0 {
+			return false
+		}
+		if int64(k) > need {
+			need = int64(k)
+		}
+	}
+	if need < 0 {
+		return false
+	}
+	for _, cl := range c.literalsAt(fd, se) {
+		be, ok := unparen(cl.e).(*ast.BinaryExpr)
+		if !ok {
+			continue
+		}
+		x, y, op := be.X, be.Y, be.Op
+		// constant on the left: flip
+		if tv, isC := c.Info.Types[x]; isC && tv.Value != nil {
+			x, y = y, x
+			switch op {
+			case token.LSS:
+				op = token.GTR
+			case token.LEQ:
+				op = token.GEQ
+			case token.GTR:
+				op = token.LSS
+			case token.GEQ:
+				op = token.LEQ
+			}
+		}
+		call, isCall := unparen(x).(*ast.CallExpr)
+		if !isCall || !c.isBuiltin(call, "len") || len(call.Args) != 1 || exprString(call.Args[0]) != base {
+			continue
+		}
+		tv, isC := c.Info.Types[y]
+		if !isC || tv.Value == nil {
+			continue
+		}
+		k, isInt := constInt(tv.Value.String())
+		if !isInt {
+			continue
+		}
+		atLeast := int64(-1)
+		switch {
+		case op == token.GEQ && !cl.neg, op == token.LSS && cl.neg:
+			atLeast = int64(k)
+		case op == token.GTR && !cl.neg, op == token.LEQ && cl.neg:
+			atLeast = int64(k) + 1
+		case op == token.EQL && !cl.neg:
+			atLeast = int64(k)
+		}
+		if atLeast >= need {
+			return true
+		}
+	}
+	return false
 }
 
 // mapStoreSafe: the map is a fresh local (made or literal) or the store is dominated by the nil-check-and-make idiom.
@@ -1187,6 +1279,10 @@ func ruleNoPanicPath(c *Ctx) {
 		for _, s := range sites {
 			key := s.fn + "/" + s.kind + "/" + s.detail
 			_, audited := auditedPanicSites[key]
+			// the reason these two are safe lies in where the text comes from, not in which function parses it
+			if !audited && s.kind == "must" && (s.detail == "MustCreateRef(<normalizeURI result>)" || s.detail == "MustCreateRef(<printed URL>)") {
+				audited = true
+			}
 			if !audited && s.kind == "panic" && c.ownedByMustAPI(f) {
 				// the panic of the documented Must* API, moved into an unexported helper that only Must* functions call
 				audited = true
@@ -1533,4 +1629,66 @@ func (c *Ctx) lastOfNonEmpty(fd *ast.FuncDecl, x, idx ast.Expr) bool {
 		})
 	}
 	return good && sites > 0
+}
+
+// sortIndexForwarded: fd is an unexported method whose receiver is indexed by one of its parameters, and every
+// call of it in the package is made from the Less / Swap method of the same receiver, on that receiver, with one
+// of Less / Swap's own index parameters: the sort.Interface contract (indices in [0, Len())) carries over.
+func (c *Ctx) sortIndexForwarded(fd *ast.FuncDecl, base ast.Expr, idx types.Object) bool {
+	self, _ := c.Info.Defs[fd.Name].(*types.Func)
+	if self == nil || self.Exported() || fd.Recv == nil {
+		return false
+	}
+	rid, ok := unparen(base).(*ast.Ident)
+	if !ok || c.objOf(rid) != c.recvObj(fd) {
+		return false
+	}
+	pi := c.paramIndex(fd, idx)
+	if pi < 0 {
+		return false
+	}
+	sites, good := 0, true
+	for _, g := range c.allFuncDecls() {
+		if g.Body == nil {
+			continue
+		}
+		ast.Inspect(g.Body, func(n ast.Node) bool {
+			call, ok := n.(*ast.CallExpr)
+			if !ok || c.callee(call) != types.Object(self) {
+				return true
+			}
+			sites++
+			if (g.Name.Name != "Less" && g.Name.Name != "Swap") || g.Recv == nil || pi >= len(call.Args) {
+				good = false
+				return true
+			}
+			se, isSel := unparen(call.Fun).(*ast.SelectorExpr)
+			if !isSel {
+				good = false
+				return true
+			}
+			if id, isId := unparen(se.X).(*ast.Ident); !isId || c.objOf(id) != c.recvObj(g) {
+				good = false
+				return true
+			}
+			aid, isId := unparen(call.Args[pi]).(*ast.Ident)
+			if !isId || (c.objOf(aid) != c.paramObj(g, 0) && c.objOf(aid) != c.paramObj(g, 1)) {
+				good = false
+			}
+			return true
+		})
+	}
+	return good && sites > 0
+}
+
+// normalisedObj: every definition of the local is a normalised reference (see isNormalisedRef).
+func (c *Ctx) normalisedObj(fd *ast.FuncDecl, o types.Object) bool {
+	var id *ast.Ident
+	ast.Inspect(fd.Body, func(n ast.Node) bool {
+		if x, ok := n.(*ast.Ident); ok && id == nil && c.objOf(x) == o {
+			id = x
+		}
+		return true
+	})
+	return id != nil && c.isNormalisedRef(fd, id, nil, 0)
 }
